@@ -121,72 +121,9 @@ def run(ctx):
                             'the flag must be decided by the scope\'s own edge' % (how, got, want),
                             witness=d.path_to(node, st) if (node.id, st.key()) in d.pred else None))
 
-    # ---- C18.c (i) incomplete flag expression
+    incomplete_flag_clause(ctx, res, cc, 'C18', 'C18.c')
     pm = roles.post_metadata
-    if pm is None:
-        raise AnalysisError('anchor-lost role=post-operation metadata step')
-    store = None
-    for n in walk_own(pm.node):
-        if isinstance(n, ast.Assign) and isinstance(n.targets[0], ast.Subscript):
-            k = n.targets[0].slice
-            if isinstance(k, ast.Attribute) and k.attr == 'INCOMPLETE_RECORDING' or (isinstance(k, ast.Constant) and k.value == K_INC):
-                store = n
-    if store is None:
-        raise AnalysisError('anchor-lost role=incomplete flag store')
-    expr = store.value
-    defs = {}
-    for n in walk_own(pm.node):
-        if isinstance(n, ast.Assign) and isinstance(n.targets[0], ast.Name):
-            defs[n.targets[0].id] = n.value
-    hops = 0
-    while isinstance(expr, ast.Name) and expr.id in defs and hops < 4:
-        expr = defs[expr.id]
-        hops += 1
-    # the collection it ranges over: a local assigned from the extractor over the recording
-    coll = None
-    for x in ast.walk(expr):
-        if isinstance(x, ast.comprehension) and isinstance(x.iter, ast.Name):
-            coll = x.iter.id
-    src_ok = False
-    direct = None
-    if coll and coll in defs and isinstance(defs[coll], ast.Call) and isinstance(defs[coll].func, ast.Attribute) and \
-            defs[coll].func.attr == roles.extractor.name:
-        c = defs[coll]
-        src_ok = bool(c.args) and isinstance(c.args[0], ast.Name) and c.args[0].id == pm.params[0]
-        direct = any(k.arg == 'direct_access' and isinstance(k.value, ast.Constant) and k.value.value is True for k in c.keywords)
     op_alias = const_of(roles, 'OPERATION_OUTPUT_ALIAS')
-    kb_out = roles.key_builders['output']
-    tmpl = None
-    for n in walk_own(kb_out.node):
-        if isinstance(n, ast.Return):
-            for k in ast.walk(n.value):
-                if isinstance(k, ast.Constant) and isinstance(k.value, str) and '{}' in k.value:
-                    tmpl = k.value
-    mk = lambda alias, i: Rec(key=tmpl.replace('{}', alias, 1).replace('{}', str(i), 1) + '.output', value=None)
-    samples = [([], True, 'no outputs at all'),
-               ([mk(op_alias, 1)], False, 'only the operation output'),
-               ([mk('send', 1), mk('send', 2)], True, 'intercepted outputs but no operation output'),
-               ([mk('send', 1), mk(op_alias, 1)], False, 'intercepted outputs and the operation output'),
-               ([mk('store', 12)], True, 'one intercepted output, ordinal 12')]
-    wrong = []
-    try:
-        for outs, expect, what in samples:
-            got = bool(eval_pred(expr, {coll: outs}, pm.module)) if coll else None
-            cc.evaluations += 1
-            if got != expect:
-                wrong.append((what, expect, got))
-    except Undecidable as u:
-        raise AnalysisError('incomplete-flag expression uses a construct the evaluator does not model: %s' % u)
-    cc.instance('incomplete flag expression on %d sample output sets' % len(samples), pm.qualname, not wrong and src_ok,
-                detail='expr: %s; outputs from extractor(recording)=%s' % (norm(expr)[:120], src_ok))
-    if wrong or not src_ok:
-        res.add(Finding('C18', 'C18.c', 'R-MUSTPASS', pm.file, pm.qualname, store.lineno, norm(store),
-                        'the incomplete flag is not "no operation-output entry among the recorded outputs": %s' % (
-                            '; '.join('%s -> %s (expected %s)' % w for w in wrong) or 'outputs are not extracted from this recording')))
-    cc.instance('incomplete flag reads the live recording (direct access, recording phase only)', pm.qualname, direct is True)
-    if direct is not True:
-        res.add(Finding('C18', 'C18.c', 'R-MUSTPASS', pm.file, pm.qualname, store.lineno, 'extractor access mode in the metadata step',
-                        'the post-operation metadata step must read the recording directly (no serializer copy that may fail in the scope\'s tail)'))
     # ---- C18.c (ii) executor records on every non-interrupt exit (recording mode); framework-typed exceptions: known finding D12
     dx = rm.run_method(ctx, roles.op_executor, 'recording')
     cc.evaluations += dx.visited_pairs
@@ -347,3 +284,73 @@ def extractor_merge(pm):
     if len(consumers) != 1:
         return False, 'the extractor result is merged by %d update calls inside the try (expected exactly one)' % len(consumers)
     return True, 'one call, one update, inside try/except Exception'
+
+
+def incomplete_flag_clause(ctx, res, cc, prop, cid):
+    roles = ctx.roles
+    K_INC = const_of(roles, 'INCOMPLETE_RECORDING')
+    pm = roles.post_metadata
+    if pm is None:
+        raise AnalysisError('anchor-lost role=post-operation metadata step')
+    store = None
+    for n in walk_own(pm.node):
+        if isinstance(n, ast.Assign) and isinstance(n.targets[0], ast.Subscript):
+            k = n.targets[0].slice
+            if isinstance(k, ast.Attribute) and k.attr == 'INCOMPLETE_RECORDING' or (isinstance(k, ast.Constant) and k.value == K_INC):
+                store = n
+    if store is None:
+        raise AnalysisError('anchor-lost role=incomplete flag store')
+    expr = store.value
+    defs = {}
+    for n in walk_own(pm.node):
+        if isinstance(n, ast.Assign) and isinstance(n.targets[0], ast.Name):
+            defs[n.targets[0].id] = n.value
+    hops = 0
+    while isinstance(expr, ast.Name) and expr.id in defs and hops < 4:
+        expr = defs[expr.id]
+        hops += 1
+    # the collection it ranges over: a local assigned from the extractor over the recording
+    coll = None
+    for x in ast.walk(expr):
+        if isinstance(x, ast.comprehension) and isinstance(x.iter, ast.Name):
+            coll = x.iter.id
+    src_ok = False
+    direct = None
+    if coll and coll in defs and isinstance(defs[coll], ast.Call) and isinstance(defs[coll].func, ast.Attribute) and \
+            defs[coll].func.attr == roles.extractor.name:
+        c = defs[coll]
+        src_ok = bool(c.args) and isinstance(c.args[0], ast.Name) and c.args[0].id == pm.params[0]
+        direct = any(k.arg == 'direct_access' and isinstance(k.value, ast.Constant) and k.value.value is True for k in c.keywords)
+    op_alias = const_of(roles, 'OPERATION_OUTPUT_ALIAS')
+    kb_out = roles.key_builders['output']
+    tmpl = None
+    for n in walk_own(kb_out.node):
+        if isinstance(n, ast.Return):
+            for k in ast.walk(n.value):
+                if isinstance(k, ast.Constant) and isinstance(k.value, str) and '{}' in k.value:
+                    tmpl = k.value
+    mk = lambda alias, i: Rec(key=tmpl.replace('{}', alias, 1).replace('{}', str(i), 1) + '.output', value=None)
+    samples = [([], True, 'no outputs at all'),
+               ([mk(op_alias, 1)], False, 'only the operation output'),
+               ([mk('send', 1), mk('send', 2)], True, 'intercepted outputs but no operation output'),
+               ([mk('send', 1), mk(op_alias, 1)], False, 'intercepted outputs and the operation output'),
+               ([mk('store', 12)], True, 'one intercepted output, ordinal 12')]
+    wrong = []
+    try:
+        for outs, expect, what in samples:
+            got = bool(eval_pred(expr, {coll: outs}, pm.module)) if coll else None
+            cc.evaluations += 1
+            if got != expect:
+                wrong.append((what, expect, got))
+    except Undecidable as u:
+        raise AnalysisError('incomplete-flag expression uses a construct the evaluator does not model: %s' % u)
+    cc.instance('incomplete flag expression on %d sample output sets' % len(samples), pm.qualname, not wrong and src_ok,
+                detail='expr: %s; outputs from extractor(recording)=%s' % (norm(expr)[:120], src_ok))
+    if wrong or not src_ok:
+        res.add(Finding(prop, cid, 'R-MUSTPASS', pm.file, pm.qualname, store.lineno, norm(store),
+                        'the incomplete flag is not "no operation-output entry among the recorded outputs": %s' % (
+                            '; '.join('%s -> %s (expected %s)' % w for w in wrong) or 'outputs are not extracted from this recording')))
+    cc.instance('incomplete flag reads the live recording (direct access, recording phase only)', pm.qualname, direct is True)
+    if direct is not True:
+        res.add(Finding(prop, cid, 'R-MUSTPASS', pm.file, pm.qualname, store.lineno, 'extractor access mode in the metadata step',
+                        'the post-operation metadata step must read the recording directly (no serializer copy that may fail in the scope\'s tail)'))
